@@ -56,6 +56,19 @@ func (r *Run) Op(op, implObs string) {
 	r.impl = append(r.impl, implObs)
 }
 
+// OpBlock records a contiguous block of operations (one stateful history) atomically.
+func (r *Run) OpBlock(ops, implObs []string) {
+	r.mu.Lock()
+	defer r.mu.Unlock()
+	for i := range ops {
+		if strings.ContainsAny(ops[i], "\n\r") || strings.ContainsAny(implObs[i], "\n\r") {
+			panic("newline in op/obs: " + ops[i] + " / " + implObs[i])
+		}
+	}
+	r.ops = append(r.ops, ops...)
+	r.impl = append(r.impl, implObs...)
+}
+
 // Eval counts one evaluated case; key identifies it for distinctness, nontrivial by the stated rule.
 func (r *Run) Eval(key string, nontrivial bool) {
 	r.mu.Lock()
